@@ -353,6 +353,9 @@ func runtimeInt(v ssa.Value) bool {
 			if ta, ok := y.Tuple.(*ssa.TypeAssert); ok && y.Index == 0 {
 				return num(ta.AssertedType)
 			}
+			if cl, ok := y.Tuple.(*ssa.Call); ok && wideRuntimeInt {
+				return walk(cl, d+1)
+			}
 			return false
 		case *ssa.Field:
 			f := y.X.Type().Underlying().(*types.Struct).Field(y.Field)
@@ -387,6 +390,9 @@ func runtimeInt(v ssa.Value) bool {
 				}
 			}
 		case *ssa.Call:
+			if f := calleeOf(y); f != nil && f.Pkg() != nil && f.Pkg().Path() == "strconv" && wideRuntimeInt {
+				return true
+			}
 			if f := calleeOf(y); f != nil && f.Pkg() != nil && f.Pkg().Path() == "math" {
 				for _, a := range y.Call.Args {
 					if walk(a, d+1) {
@@ -399,6 +405,9 @@ func runtimeInt(v ssa.Value) bool {
 	}
 	return walk(v, 0)
 }
+
+// wideRuntimeInt also treats strconv results as run-time integers (exploration of other packages).
+var wideRuntimeInt = false
 
 type sliceSite struct {
 	fn   *ssa.Function
